@@ -282,6 +282,20 @@ def run(ctx) -> None:
                 w2 = dict(wit) if isinstance(wit, dict) else dict(wit())
                 w2["kbd_device"] = True
                 ctx.violation("C16/keyboard-device/" + sig.split("/", 1)[1], what, w2)
+    # device level: the LCD controllers saved and reloaded inside command/data/read histories
+    from . import c15
+    lcd_ev = [("w", a, v) for a in (0x2000, 0x2002, 0x2008, 0x200A, 0x2004, 0xA00A) for v in (0x3F, 0x3E, 0x41, 0xB9, 0xC5, 0xA5)] + \
+             [("r", a, 0) for a in (0x2009, 0x200B, 0x2005, 0x2007, 0x2001)] + [("s", 0, 0)]
+    lres = pmap(c15._bfs, [(c, lcd_ev, 4 if ctx.thorough else 3) for c in chunks(lcd_ev, n)])
+    wr = c15._wrap_runs()
+    lres2 = pmap(c15._snap_scripts, chunks(wr if ctx.thorough else wr[::3], n))
+    for r in lres + lres2:
+        for sig, (cnt, wl) in r["vb"].d.items():
+            for what, wit in wl[:1]:
+                w2 = dict(wit)
+                w2["lcd_device"] = True
+                ctx.violation("C16/lcd-device/" + sig.split("/", 1)[1], what, w2)
+    ctx.coverage["lcd_device_snapshot_runs"] = sum(r["transitions"] for r in lres) + sum(r["n"] for r in lres2)
     ctx.coverage["keyboard_device_snapshot_runs"] = sum(r["n"] for r in kres) + sum(r["transitions"] for r in kbfs)
     ctx.level = "fault_enumeration"
     pts = sum(r["points"] for r in res)
@@ -307,6 +321,9 @@ def run(ctx) -> None:
 def replay(ctx, w) -> Optional[str]:
     rb.build()
     vb = VB()
+    if w.get("lcd_device"):
+        from . import c15
+        return c15.replay(ctx, w)
     if w.get("kbd_device"):
         from . import c14
         return c14.replay(ctx, w)
